@@ -13,7 +13,7 @@ import numpy as np
 from mc import bfs as bfs_mod
 from mc import core
 from mc.core import Judgement, Recorder
-from mc.harness import TableEvaluator, make_manager, make_transforms
+from mc.harness import TableEvaluator, make_manager, make_transforms, scipy_entry_points
 
 PROPERTY = "C12"
 RULE = (
@@ -334,16 +334,13 @@ def run_basic(trace: list[tuple[str, str]], tname: str) -> Judgement:
 
     transforms = make_transforms(maximize=True) if maximize else None
     evaluator = TableEvaluator(fn2, 1, 1)
-    original = scipy_plugin.minimize
-    scipy_plugin.minimize = driver2
     try:
-        opt = BasicOptimizer(config, evaluator, transforms=transforms, constraint_tolerance=1e-10)
-        opt.run()
+        with scipy_entry_points(driver2):
+            opt = BasicOptimizer(config, evaluator, transforms=transforms, constraint_tolerance=1e-10)
+            opt.run()
     except Exception as exc:  # noqa: BLE001
         j.fail(f"basic-optimizer-raised:{type(exc).__name__}", trace=trace)
         return j
-    finally:
-        scipy_plugin.minimize = original
     # model: the run stops at the first NaN (TOO_FEW_REALIZATIONS for a NaN-intolerant method), results before count
     valid = []
     for k, (o, f) in enumerate(trace):
